@@ -88,7 +88,8 @@ def assign_contents(r, entries):
         k = r.random()
         if k < 0.45 or not _pool:
             e.method = r.choice([b"-lh0-", b"-lz4-", b"-pm0-"])
-            if r.random() < 0.3 and e.mtime > 100000 and b"/" not in e.path[-64:].split(b"/")[-1]:
+            # (the Mac epoch field is 32 bits: it ends in 2040)
+            if r.random() < 0.3 and 100000 < e.mtime < 2_200_000_000 and b"/" not in e.path[-64:].split(b"/")[-1]:
                 macbinary_member(r, e)
             comp[id(e)] = e.data
         else:
